@@ -485,6 +485,20 @@ func GenProgram(t *rapid.T, prof *Profile, doc Doc) *Program {
 		}
 	}
 	if prof.Tags {
+		var plug []*Step
+		for _, s := range p.Steps {
+			if s.Kind == "plugin" {
+				plug = append(plug, s)
+			}
+		}
+		if len(plug) >= 2 && g.pct(60, "oneof_two_steps") {
+			// both options can be produced; the data and the discriminator must belong together
+			a := plug[rapid.IntRange(0, len(plug)-1).Draw(t, "pick_a")]
+			b := plug[rapid.IntRange(0, len(plug)-1).Draw(t, "pick_b")]
+			if a != b {
+				fields = append(fields, F("pick", OneOf("which", F("opt_"+a.ID, StepRef(a.ID, "outputs", "success")), F("opt_"+b.ID, StepRef(b.ID, "outputs", "success")))))
+			}
+		}
 		for _, s := range p.Steps {
 			if s.Kind != "plugin" {
 				continue
